@@ -35,6 +35,17 @@ Proof.
     rewrite T in E. discriminate.
 Qed.
 
+(* a refused frame — unsigned, v1, wrongly signed, too old — leaves the register alone: only
+   authenticated frames can move the window *)
+Theorem refused_keeps_register key st f code st' : check_key key st f = (Some code, st') -> st' = st.
+Proof.
+  unfold check_key. destruct (f_v2 f); cbn [negb]; [|intros H; inversion H; reflexivity].
+  destruct (f_sig f) as [sg|]; [|intros H; inversion H; reflexivity].
+  destruct (raw_of f) as [id p].
+  destruct (bytes_eqb (gen_signature key f id p) sg); cbn [negb]; [|intros H; inversion H; reflexivity].
+  destruct (window_refuse (r_cur_ts st) (f_ts f)); intros H; inversion H; reflexivity.
+Qed.
+
 Corollary v1_refused key st f : f_v2 f = false -> fst (check_key key st f) = Some pe_not_v2.
 Proof. intros H. unfold check_key. rewrite H. reflexivity. Qed.
 
